@@ -101,6 +101,7 @@ def run(tier, seed, replay=None):
     if not chk.builds(model=True, harness=True, skeletons=True):
         return chk.finish()
     chk.proofs()
+    chk.proofs("Grants")     # granted iterations and the iteration count do not depend on the schedule (justifies the canonical schedule of ploop)
     chk.oblig("O_C15")
     scripted_stage(chk, tier, seed)
     n = 60 if tier == "quick" else 800
